@@ -3,6 +3,7 @@
 //! cycles / sizes, tips and a battery of chain-store queries must be identical
 //! to those of the node whose caches are all disabled.
 mod dao;
+mod frozen;
 mod gen;
 mod node;
 mod probes;
@@ -162,6 +163,7 @@ fn main() {
     let mut only: Option<u64> = None;
     let mut probes_only = false;
     let mut dao_only: Option<u64> = None;
+    let mut fz_only: Option<u64> = None;
     // development aid: HX_STREAM=dao runs the DAO lock-size stream alone
     let dao_stream_alone = std::env::var("HX_STREAM").map(|s| s == "dao").unwrap_or(false);
     if let Ok(p) = std::env::var("HX_REPLAY") {
@@ -169,6 +171,9 @@ fn main() {
         let d = v["violations"].get(0).map(|x| x["detail"].clone()).or_else(|| v["cases"].get(0).map(|x| x["case"].clone())).unwrap_or(Value::Null);
         if d["stream"] == "probe" {
             probes_only = true;
+        } else if d["stream"] == "frozen-cache" || d["case"]["stream"] == "frozen-cache" {
+            fz_only = Some(d["history_index"].as_u64().or(d["case"]["history_index"].as_u64()).unwrap_or(0));
+            probes_only = false;
         } else if d["stream"] == "dao-lock-size" {
             dao_only = Some(d["history_index"].as_u64().unwrap_or(0));
         } else if let Some(hi) = d["history_index"].as_u64() {
@@ -183,12 +188,12 @@ fn main() {
     let mut samples: Vec<Value> = vec![];
     let mut evaluations = 0u64;
     let shards = 8usize;
-    let header = "From CKB Require Import Tx.Cache Tx.SysCache.";
+    let header = "From CKB Require Import Tx.Cache Tx.SysCache Tx.FrozenCache.";
     let mut files: Vec<CaseFile> = (0..shards)
-        .map(|i| { let mut cf = CaseFile::new(&out, &format!("cases_{:02}", i), header); cf.group("vcache", "vcase", "check_vcase"); cf.group("syscache", "sccase", "check_sccase"); cf.group("daocache", "dcase", "check_dcase"); cf })
+        .map(|i| { let mut cf = CaseFile::new(&out, &format!("cases_{:02}", i), header); cf.group("vcache", "vcase", "check_vcase"); cf.group("syscache", "sccase", "check_sccase"); cf.group("daocache", "dcase", "check_dcase"); cf.group("frozencache", "fzcase", "check_fzcase"); cf })
         .collect();
     let mut descs: Vec<BTreeMap<String, Vec<Value>>> = (0..shards).map(|_| BTreeMap::new()).collect();
-    if !probes_only && dao_only.is_none() && !dao_stream_alone {
+    if !probes_only && dao_only.is_none() && !dao_stream_alone && fz_only.is_none() {
         for hi in 0..n_hist {
             if let Some(o) = only { if o != hi { continue; } }
             let r = std::panic::catch_unwind(std::panic::AssertUnwindSafe(|| run_history(seed, hi, thorough, &scratch)));
@@ -215,7 +220,7 @@ fn main() {
     }
     if std::env::var("HX_TIMING").is_ok() { eprintln!("histories done at {:?}", T0.get().unwrap().elapsed()); }
     let mut probe_results = json!({});
-    if only.is_none() && dao_only.is_none() && !dao_stream_alone {
+    if only.is_none() && dao_only.is_none() && !dao_stream_alone && fz_only.is_none() {
         let r = std::panic::catch_unwind(std::panic::AssertUnwindSafe(|| {
             let (v1, r1) = probes::probe_assume_valid(&scratch);
             let (mut v2, r2) = probes::probe_negative(&scratch);
@@ -240,7 +245,7 @@ fn main() {
     // DAO lock-size stream: two competing branches on which the RFC0044 rule is waived / applies
     let mut dao_pool_examples: Vec<Value> = vec![];
     let mut dao_samples: Vec<Value> = vec![];
-    if only.is_none() && !probes_only {
+    if only.is_none() && !probes_only && fz_only.is_none() {
         let o = dao::run(seed, thorough, &scratch, dao_only);
         viol.extend(o.viol);
         for (k, v) in o.stats { *stats.entry(k).or_default() += v; }
@@ -255,8 +260,24 @@ fn main() {
         }
     }
     if std::env::var("HX_TIMING").is_ok() { eprintln!("dao stream done at {:?}", T0.get().unwrap().elapsed()); }
-    // SYSTEM_CELL stream (sets the process-wide cache: after everything else)
+    // read caches in front of a store with a freezer
+    let mut fz_samples: Vec<Value> = vec![];
     if only.is_none() && !probes_only && dao_only.is_none() && !dao_stream_alone {
+        let o = frozen::run(seed, thorough, &scratch, fz_only);
+        viol.extend(o.viol);
+        for (k, v) in o.stats { *stats.entry(k).or_default() += v; }
+        for k in o.distinct { distinct.insert(k); }
+        fz_samples = o.samples;
+        for (i, (case, desc)) in o.cases.into_iter().enumerate() {
+            let sh = i % shards;
+            files[sh].push(3, case);
+            descs[sh].entry("frozencache".into()).or_default().push(desc);
+            evaluations += 1;
+        }
+    }
+    if std::env::var("HX_TIMING").is_ok() { eprintln!("frozen stream done at {:?}", T0.get().unwrap().elapsed()); }
+    // SYSTEM_CELL stream (sets the process-wide cache: after everything else)
+    if only.is_none() && !probes_only && dao_only.is_none() && !dao_stream_alone && fz_only.is_none() {
         match std::panic::catch_unwind(|| syscell::run(seed, thorough)) {
             Err(p) => {
                 let msg = p.downcast_ref::<String>().cloned().or_else(|| p.downcast_ref::<&str>().map(|s| s.to_string())).unwrap_or_default();
@@ -288,7 +309,7 @@ fn main() {
         "distribution": stats, "samples": samples,
         "impl_violations": viol,
         "extra_coverage": {"directed_probes": probe_results, "node_configurations": CONFIGS.iter().map(config_json).collect::<Vec<_>>(),
-                           "dao_lock_size_stream": {"samples": dao_samples, "pool_accepts_from_cache_what_it_rejects_cold": dao_pool_examples}},
+                           "frozen_cache_stream": {"samples": fz_samples}, "dao_lock_size_stream": {"samples": dao_samples, "pool_accepts_from_cache_what_it_rejects_cold": dao_pool_examples}},
     });
     fs::write(out.join("summary.json"), serde_json::to_string_pretty(&summary).unwrap()).unwrap();
     println!("hx-cache: {} (history, configuration) evaluations, {} implementation-side differences ({} without a known signature)", evaluations, summary["impl_violations"].as_array().unwrap().len(), unsigned);
